@@ -1,7 +1,33 @@
 use crate::error::{ToSqlError, ToSqlResult};
 
+/// How tightly the text of a builder holds together when an operator is applied to it.
+#[derive(Debug, Clone, Copy, PartialEq, Eq, PartialOrd, Ord)]
+pub enum SqlPrecedence {
+    /// An operator expression: `(a) + (b)`, `(o)->>'f'`. Must be parenthesised under
+    /// a prefix operator, a cast, a subscript or a call.
+    Operator,
+    /// A cast `v::type`. Another cast or a prefix operator may be applied to it as it
+    /// is; a subscript or an argument list would be read as part of the type name.
+    Cast,
+    /// Anything else: a name, a literal or a text that brackets itself.
+    Primary,
+}
+
 pub trait SqlBuilder {
     fn to_sql(self: Box<Self>) -> ToSqlResult<String>;
+
+    fn precedence(&self) -> SqlPrecedence {
+        SqlPrecedence::Primary
+    }
+}
+
+/// The text of `operand`, parenthesised when it binds less tightly than `at_least`.
+fn operand_to_sql(operand: Box<dyn SqlBuilder>, at_least: SqlPrecedence) -> ToSqlResult<String> {
+    if operand.precedence() < at_least {
+        Ok(format!("({})", operand.to_sql()?))
+    } else {
+        operand.to_sql()
+    }
 }
 
 pub trait IntoSqlBuilder {
@@ -56,6 +82,10 @@ impl SqlBuilder for BinaryOperationBuilder {
             self.rhs.to_sql()?
         ))
     }
+
+    fn precedence(&self) -> SqlPrecedence {
+        SqlPrecedence::Operator
+    }
 }
 
 pub struct UnaryOperationBuilder {
@@ -68,7 +98,7 @@ impl SqlBuilder for UnaryOperationBuilder {
         Ok(format!(
             "({}{})",
             self.operator.to_sql()?,
-            self.operand.to_sql()?
+            operand_to_sql(self.operand, SqlPrecedence::Cast)?
         ))
     }
 }
@@ -122,7 +152,7 @@ impl SqlBuilder for FunctionCallBuilder {
     fn to_sql(self: Box<Self>) -> ToSqlResult<String> {
         Ok(format!(
             "{}({})",
-            self.primary.to_sql()?,
+            operand_to_sql(self.primary, SqlPrecedence::Primary)?,
             self.args
                 .into_iter()
                 .map(|a| a.to_sql())
@@ -141,9 +171,13 @@ impl SqlBuilder for CastBuilder {
     fn to_sql(self: Box<Self>) -> ToSqlResult<String> {
         Ok(format!(
             "{}::{}",
-            self.value.to_sql()?,
+            operand_to_sql(self.value, SqlPrecedence::Cast)?,
             self.cast_type.to_sql()?
         ))
+    }
+
+    fn precedence(&self) -> SqlPrecedence {
+        SqlPrecedence::Cast
     }
 }
 
@@ -162,6 +196,14 @@ impl SqlBuilder for JsonObjectBuilder {
                 .map(|(key, value)| Ok(format!("{}, {}", key.to_sql()?, value.to_sql()?)))
                 .collect::<ToSqlResult<Vec<_>>>()?;
             Ok(format!("json_build_object({})", field_pairs.join(", ")))
+        }
+    }
+
+    fn precedence(&self) -> SqlPrecedence {
+        if self.fields.is_empty() {
+            SqlPrecedence::Cast
+        } else {
+            SqlPrecedence::Primary
         }
     }
 }
@@ -187,6 +229,10 @@ impl SqlBuilder for JsonMemberAccessBuilder {
                 self.field.to_sql()?
             ))
         }
+    }
+
+    fn precedence(&self) -> SqlPrecedence {
+        SqlPrecedence::Operator
     }
 }
 
@@ -220,7 +266,7 @@ impl SqlBuilder for ArrayAccessBuilder {
     fn to_sql(self: Box<Self>) -> ToSqlResult<String> {
         Ok(format!(
             "({}[{}])",
-            self.array.to_sql()?,
+            operand_to_sql(self.array, SqlPrecedence::Primary)?,
             self.member.to_sql()?
         ))
     }
